@@ -29,7 +29,8 @@
      the negated value AND the same effect), `condRun_swap` (`a < b` ≡ `b > a`, `(e) < X` ≡ `X > (e)`: same value, same
      effect), `cond_congr` (conditions with the same value and effect everywhere are interchangeable in if / while /
      do-while / for); `while ≡ if-do-while` and `for ≡ while` hold with effects because both spellings evaluate the
-     condition at the same moments
+     condition at the same moments; `wide_compare_symmetric_law` (`s == t` ≡ `t == s` on 16-bit variables: same truth
+     value, states equal outside the scratch cell)
   Not proved: the rewrites that need arrays, switch or calls (switch vs if-chain, register vs constant
   index, call vs body in place); they are decided by metamorphic co-execution in the check (partial).
 -/
@@ -778,6 +779,32 @@ theorem double_complement_law (L : Layout) (σ : SrcSt) (e : GExpr) :
   generalize pureE L σ e = x
   rw [BitVec.xor_assoc]
   simp
+
+/-- `s == t` and `t == s` on 16-bit variables: different code (the operands change places in the subtraction), the same
+    truth value, and states that differ only in the scratch cell -/
+theorem wide_compare_symmetric_law (L : Layout) (σ : SrcSt) (ne : Bool) (s t : String)
+    (hn : NoTmp L [Atom.var s, Atom.el s (.k 1), Atom.var t, Atom.el t (.k 1)]) :
+    evalCond L σ (.wcmp ne s (.wvar t)) = evalCond L σ (.wcmp ne t (.wvar s)) ∧
+      EqOff L (condEff L σ (.wcmp ne s (.wvar t))) (condEff L σ (.wcmp ne t (.wvar s))) := by
+  have h1 := C01.wide_condition_is_word_compare L σ ne s (.wvar t)
+    ⟨hn.1, fun a ha => hn.2 a (by simp [WA.lo, WA.hi, Atom.names] at ha ⊢; rcases ha with h | h | h | h <;> simp [h])⟩
+  have h2 := C01.wide_condition_is_word_compare L σ ne t (.wvar s)
+    ⟨hn.1, fun a ha => hn.2 a (by simp [WA.lo, WA.hi, Atom.names] at ha ⊢; rcases ha with h | h | h | h <;> simp [h])⟩
+  refine ⟨?_, h1.2.trans h2.2.symm⟩
+  rw [h1.1, h2.1]
+  simp only [wval]
+  generalize wordAt L σ.mem s = A
+  generalize wordAt L σ.mem t = B
+  have hsym : (A == B) = (B == A) := by
+    by_cases h : A = B
+    · subst h; rfl
+    · have h' : ¬ B = A := fun e => h e.symm
+      have e1 : (A == B) = false := by simpa using h
+      have e2 : (B == A) = false := by simpa using h'
+      rw [e1, e2]
+  cases ne
+  · simpa using hsym
+  · simp only [if_true, bne, hsym]
 
 /-- the two spellings are different code (the hypotheses of `tree_comm_law` are met by trees that spill differently) -/
 example : rgenText (fun _ => true) (.expr (.var "v") (.bin (.bin (.atom (.of (.var "a"))) .add (.atom (.of (.var "b")))) .bxor
